@@ -22,7 +22,7 @@ ASSUMPTIONS = ["XML text <-> element tree is lxml / ElementTree / minidom (trust
                "prefix-stripping regex are covered by the correspondence only"]
 
 TAGS = ["a", "b", "item", "node", "Value", "x1", "my-tag", "t.s"]
-TEXTS = ["1", "-2.5", "true", "FALSE", "none", "hello", "two words", " padded ", "", "   ", "\n  \n", "line1\n   line2\n  line3", "1e3", "007", "é ü", "a;b", "x:y"]
+TEXTS = ["1", "-2.5", "true", "FALSE", "none", "1.0", "0.0", "on", "off", "0", "-0.0", "1e0", "True", "2", "2.0", "hello", "two words", " padded ", "", "   ", "\n  \n", "line1\n   line2\n  line3", "1e3", "007", "é ü", "a;b", "x:y"]
 ATTRS = ["id", "name", "unit", "flag"]
 
 
